@@ -297,59 +297,61 @@ theorem renameStep_inv {nameOf : Str → Option Str} (env : NameEnv nameOf) {st 
       split
       · exact hweak
       · rename_i hsh
-        cases hf : nameOf r.1 with
-        | none => exact hweak
-        | some fname =>
-          simp only
-          -- the target is untouched so far
-          have sb_none : st.shadowedBy r.2 = none := by
-            cases hv : st.shadowedBy r.2 with
-            | none => rfl
-            | some w =>
-              exfalso
-              obtain ⟨s, gn, hs, _, _⟩ := h.b _ _ hv
-              apply hsb
-              rw [hv, truthyS_some]
-              exact env.nonempty _ _ hs
-          have sh_none : st.shadows r.2 = none := by
-            cases hv : st.shadows r.2 with
-            | none => rfl
-            | some v =>
-              exfalso
-              obtain ⟨t, fn, ht, _, _⟩ := h.a _ _ hv
-              apply hsh
-              rw [hv, truthyS_some]
-              exact env.nonempty _ _ ht
-          have src_none : st.shadows r.1 = none := h.c _ (List.mem_cons_self)
-          refine ⟨?_, ?_, ?_⟩
-          · intro s v hv
-            by_cases hs : s = r.1
-            · subst hs
-              simp only [if_true] at hv
-              cases hv
-              exact ⟨r.2, fname, hg, hf, by simp⟩
-            · simp only [hs, if_false] at hv
-              obtain ⟨t, fn, ht, hfn, hsbt⟩ := h.a _ _ hv
-              refine ⟨t, fn, ht, hfn, ?_⟩
-              by_cases htt : t = r.2
-              · subst htt; rw [sb_none] at hsbt; cases hsbt
-              · simp [htt, hsbt]
-          · intro t w hw
-            by_cases ht : t = r.2
-            · subst ht
-              simp only [if_true] at hw
-              cases hw
-              exact ⟨r.1, gname, hf, hg, by simp⟩
-            · simp only [ht, if_false] at hw
-              obtain ⟨s, gn, hs, hgn, hshs⟩ := h.b _ _ hw
-              refine ⟨s, gn, hs, hgn, ?_⟩
-              by_cases hss : s = r.1
-              · subst hss; rw [src_none] at hshs; cases hshs
-              · simp [hss, hshs]
-          · intro s hs
-            have : s ≠ r.1 := by rintro rfl; exact hnd hs
-            simp only [this, if_false]
-            exact h.c s (List.mem_cons_of_mem _ hs)
+        split
+        · exact hweak
+        · cases hf : nameOf r.1 with
+          | none => exact hweak
+          | some fname =>
+            simp only
+            -- the target is untouched so far
+            have sb_none : st.shadowedBy r.2 = none := by
+              cases hv : st.shadowedBy r.2 with
+              | none => rfl
+              | some w =>
+                exfalso
+                obtain ⟨s, gn, hs, _, _⟩ := h.b _ _ hv
+                apply hsb
+                rw [hv, truthyS_some]
+                exact env.nonempty _ _ hs
+            have sh_none : st.shadows r.2 = none := by
+              cases hv : st.shadows r.2 with
+              | none => rfl
+              | some v =>
+                exfalso
+                obtain ⟨t, fn, ht, _, _⟩ := h.a _ _ hv
+                apply hsh
+                rw [hv, truthyS_some]
+                exact env.nonempty _ _ ht
+            have src_none : st.shadows r.1 = none := h.c _ (List.mem_cons_self)
+            refine ⟨?_, ?_, ?_⟩
+            · intro s v hv
+              by_cases hs : s = r.1
+              · subst hs
+                simp only [if_true] at hv
+                cases hv
+                exact ⟨r.2, fname, hg, hf, by simp⟩
+              · simp only [hs, if_false] at hv
+                obtain ⟨t, fn, ht, hfn, hsbt⟩ := h.a _ _ hv
+                refine ⟨t, fn, ht, hfn, ?_⟩
+                by_cases htt : t = r.2
+                · subst htt; rw [sb_none] at hsbt; cases hsbt
+                · simp [htt, hsbt]
+            · intro t w hw
+              by_cases ht : t = r.2
+              · subst ht
+                simp only [if_true] at hw
+                cases hw
+                exact ⟨r.1, gname, hf, hg, by simp⟩
+              · simp only [ht, if_false] at hw
+                obtain ⟨s, gn, hs, hgn, hshs⟩ := h.b _ _ hw
+                refine ⟨s, gn, hs, hgn, ?_⟩
+                by_cases hss : s = r.1
+                · subst hss; rw [src_none] at hshs; cases hshs
+                · simp [hss, hshs]
+            · intro s hs
+              have : s ≠ r.1 := by rintro rfl; exact hnd hs
+              simp only [this, if_false]
+              exact h.c s (List.mem_cons_of_mem _ hs)
 
 theorem renameFold_inv_aux {nameOf : Str → Option Str} (env : NameEnv nameOf) (reqs : List (Str × Str))
     (st : RState) (hnd : (reqs.map (·.1)).Nodup) (h : RInv nameOf st (reqs.map (·.1))) :
@@ -364,6 +366,83 @@ theorem renameFold_inv_aux {nameOf : Str → Option Str} (env : NameEnv nameOf) 
 theorem renameFold_inv {nameOf : Str → Option Str} (env : NameEnv nameOf) (reqs : List (Str × Str))
     (hnd : (reqs.map (·.1)).Nodup) : RInv nameOf (renameFold nameOf reqs) [] :=
   renameFold_inv_aux env reqs _ hnd (RInv.init _ _)
+
+/-- no function both shadows and is shadowed -/
+def NoBoth (st : RState) : Prop := ∀ s v w, st.shadows s = some v → st.shadowedBy s = some w → False
+
+/-- a request that does not name its own function keeps `NoBoth`: the visited function must not
+    be shadowed yet (the check added by "refuse rename-to chains in either processing order"), the
+    target must neither shadow nor be shadowed -/
+theorem renameStep_noboth {nameOf : Str → Option Str} (env : NameEnv nameOf) {st : RState} {r : Str × Str}
+    {pend : List Str} (h : RInv nameOf st pend) (hne : r.1 ≠ r.2) (nb : NoBoth st) :
+    NoBoth (renameStep nameOf st r) := by
+  unfold renameStep
+  cases hg : nameOf r.2 with
+  | none => exact nb
+  | some gname =>
+    simp only
+    split
+    · exact nb
+    · split
+      · exact nb
+      · rename_i hsh
+        split
+        · exact nb
+        · rename_i hsrc
+          cases hf : nameOf r.1 with
+          | none => exact nb
+          | some fname =>
+            simp only
+            have sh_none : st.shadows r.2 = none := by
+              cases hv : st.shadows r.2 with
+              | none => rfl
+              | some v =>
+                exfalso
+                obtain ⟨t, fn, ht, _, _⟩ := h.a _ _ hv
+                apply hsh
+                rw [hv, truthyS_some]
+                exact env.nonempty _ _ ht
+            have src_none : st.shadowedBy r.1 = none := by
+              cases hv : st.shadowedBy r.1 with
+              | none => rfl
+              | some w =>
+                exfalso
+                obtain ⟨s, gn, hs, _, _⟩ := h.b _ _ hv
+                apply hsrc
+                rw [hv, truthyS_some]
+                exact env.nonempty _ _ hs
+            intro s v w hv hw
+            simp only at hv hw
+            by_cases h1 : s = r.1
+            · subst h1
+              rw [if_neg hne, src_none] at hw
+              cases hw
+            · rw [if_neg h1] at hv
+              by_cases h2 : s = r.2
+              · subst h2
+                rw [sh_none] at hv
+                cases hv
+              · rw [if_neg h2] at hw
+                exact nb s v w hv hw
+
+theorem renameFold_noboth_aux {nameOf : Str → Option Str} (env : NameEnv nameOf) (reqs : List (Str × Str))
+    (st : RState) (hnd : (reqs.map (·.1)).Nodup) (hne : ∀ r ∈ reqs, r.1 ≠ r.2)
+    (h : RInv nameOf st (reqs.map (·.1))) (nb : NoBoth st) :
+    NoBoth (reqs.foldl (renameStep nameOf) st) := by
+  induction reqs generalizing st with
+  | nil => simpa using nb
+  | cons r rs ih =>
+    simp only [List.map_cons, List.nodup_cons] at hnd
+    simp only [List.foldl_cons]
+    exact ih _ hnd.2 (fun r' hr' => hne r' (List.mem_cons_of_mem _ hr'))
+      (renameStep_inv env (by simpa using h) hnd.1)
+      (renameStep_noboth env h (hne r List.mem_cons_self) nb)
+
+/-- after any number of requests, none of which names its own function, nobody both shadows and is
+    shadowed: the writer's `elif` never hides a `shadows` -/
+theorem renameFold_noboth {nameOf : Str → Option Str} (env : NameEnv nameOf) (reqs : List (Str × Str))
+    (hnd : (reqs.map (·.1)).Nodup) (hne : ∀ r ∈ reqs, r.1 ≠ r.2) : NoBoth (renameFold nameOf reqs) :=
+  renameFold_noboth_aux env reqs _ hnd hne (RInv.init _ _) (by intro s v w h; simp [RState.init] at h)
 
 /-- only visited sources shadow, only requested targets are shadowed -/
 theorem renameStep_dom (nameOf : Str → Option Str) (st : RState) (r : Str × Str) (S T : List Str)
@@ -380,19 +459,21 @@ theorem renameStep_dom (nameOf : Str → Option Str) (st : RState) (r : Str × S
     · exact ⟨hs, ht⟩
     · split
       · exact ⟨hs, ht⟩
-      · cases nameOf r.1 with
-        | none => exact ⟨hs, ht⟩
-        | some f =>
-          simp only
-          constructor
-          · intro s v hv
-            by_cases h : s = r.1
-            · rw [h]; exact hr1
-            · simp only [h, if_false] at hv; exact hs _ _ hv
-          · intro t w hw
-            by_cases h : t = r.2
-            · rw [h]; exact hr2
-            · simp only [h, if_false] at hw; exact ht _ _ hw
+      · split
+        · exact ⟨hs, ht⟩
+        · cases nameOf r.1 with
+          | none => exact ⟨hs, ht⟩
+          | some f =>
+            simp only
+            constructor
+            · intro s v hv
+              by_cases h : s = r.1
+              · rw [h]; exact hr1
+              · simp only [h, if_false] at hv; exact hs _ _ hv
+            · intro t w hw
+              by_cases h : t = r.2
+              · rw [h]; exact hr2
+              · simp only [h, if_false] at hw; exact ht _ _ hw
 
 theorem renameFold_dom_aux (nameOf : Str → Option Str) (reqs : List (Str × Str)) (st : RState) (S T : List Str)
     (hs : ∀ s v, st.shadows s = some v → s ∈ S) (ht : ∀ t w, st.shadowedBy t = some w → t ∈ T)
